@@ -272,6 +272,7 @@ PROPS = {
     },
     "C08": {
         "module": "ZenonVerif.Props.C08",
+        "extra_modules": ["ZenonVerif.Props.C08Journal"],
         "streams": [S("crash", 25, 1500, timeout=7200)],
         "rule": "crash stream: one evaluation = one commit/rollback of a generated history on a real NewLevelDBManager whose "
                 "journal is parsed before/after (write count + batch content replayed against the Lean write plan), plus one "
@@ -287,13 +288,47 @@ PROPS = {
                 "does - it must open), its raw key space must equal the state before or after, the operation is re-delivered on the "
                 "recovered image (all block-boundary images and a third of the others) and the bookkeeping checks run on a quarter; "
                 "a quarter of the commits carry 12-80 KiB of values (records of 2-8 blocks), one in ten a few hundred KiB, one "
-                "sequence in six a commit of megabytes that is then rolled back; distinct = distinct lines",
+                "sequence in six a commit of megabytes that is then rolled back; journal layer (jr-* lines, driver handler "
+                "Driver/Journal.lean = Model/Journal.lean `recover` / `recoverStrict` / `encodeJournal` / `wholeRecs` at block size 32768 "
+                "with the real masked CRC-32C computed in Lean): whole journal files of at most 128 KiB - per quick run three live "
+                "journals of the database under test right after a commit whose record spans 2+ blocks, three small live journals, and "
+                "three journals written by goleveldb's own journal.Writer from records sized so that 0,1,...,8 bytes are left in the "
+                "block when the next record starts (zero padding / FIRST chunk with empty payload; all nine cases in every run), records "
+                "ending exactly at a block boundary, empty records, records of one block give or take a byte - are (jr-parse) read by "
+                "goleveldb's own journal.Reader driven as DB.recoverJournal drives it (non-strict, checksums on), by the harness parser "
+                "the whole crash stream relies on (must agree, else the line says so) and by the model, which also re-encodes the "
+                "recovered records and must reproduce the file byte for byte (chunking, padding, checksums of the real writer); "
+                "(jr-cut) 18-36 cuts per journal - at, 1 before, 1-8 after every record end, around every block boundary, inside "
+                "headers, arbitrary - a third of them followed by zeros (few / to the end of the block / into following blocks) or "
+                "arbitrary bytes (some with a valid type byte where a header is read, some reaching into the next block): number of "
+                "records goleveldb's reader delivers (must be the first k of the journal), verdict of the STRICT reader "
+                "(opt.StrictJournal: ok / error), and the number of records ending at or before the cut according to the harness "
+                "parser, each compared with the model; distinct = distinct lines",
         "partial": "process death is reproduced at the granularity of the write(2) calls of goleveldb's journal writer (record "
                    "boundaries and the 32 KiB block boundaries inside a record) plus short writes and file-system tails; what "
-                   "goleveldb does with a torn record is its own recovery code, executed for real on every image but not modelled; "
+                   "goleveldb does with a torn journal is now also a theorem about a model of its log format and reader "
+                   "(C08Journal: every byte prefix of a journal is read back as the write calls that are complete in it, so a crash "
+                   "at any byte of a commit's single record leaves the state before or after; a zero-filled tail changes nothing "
+                   "provided the checksum rejects the one torn chunk - hypothesis TornDetected, not provable for a 32-bit checksum; "
+                   "for arbitrary bytes behind the cut there is no theorem, the model is only compared with goleveldb on such images); "
+                   "the model is tied to goleveldb by replaying real journal files (reader AND writer: re-encoding reproduces the "
+                   "bytes), not by a proof about the Go code; corruption in the middle of a journal (bit rot) is evaluated by the "
+                   "model but outside the theorems and the property; commits larger than goleveldb's 4 MiB write buffer bypass the "
+                   "journal (table-file transaction: only the end points are examined, `crash-plan-large`); recovery of table files / "
+                   "manifest and compaction are goleveldb's and are only executed, not modelled; "
                    "fsync / power-loss reordering between files is outside the property (process death); "
                    "the node-level commit (chain.AddMomentumTransaction) adds no further leveldb write to the ledger database",
-        "assumptions": ["goleveldb: one journal record per write call, handed to the OS (block by block) before the call returns; a batch is atomic w.r.t. process death"],
+        "assumptions": ["goleveldb: one journal record per write call (DB.writeJournal: Next, batch bytes, Flush), handed to the OS "
+                        "block by block before the call returns; on reopening, recoverJournal applies exactly the records its "
+                        "journal.Reader delivers, each as one batch (memtable replay; no partial application of a record)",
+                        "goleveldb's journal.go implements the log format as read into Model/Journal.lean (checked on real journal "
+                        "files by the jr-* lines, reader and writer side, not proved about the Go source); masked CRC-32C detects a "
+                        "chunk completed by a foreign tail (TornDetected)",
+                        "the operating system keeps the bytes of a file that were written before a process death, in order "
+                        "(a prefix of the journal survives: process death, not power loss); fsync / cross-file ordering not needed "
+                        "for process death and not modelled",
+                        "batches above the write buffer (4 MiB) are written as a table-file transaction whose atomicity is "
+                        "goleveldb's manifest commit: trusted, end points examined"],
     },
     "C06": {
         "module": "ZenonVerif.Props.C06",
